@@ -261,7 +261,7 @@ Proof.
   (* run encode *)
   destruct (sign_total header (JObj (flat_map (bmem H enc) m3))) as (jwt & Hsign & Hjt).
   assert (Hissue : issue E C paths max_decoys cnf header = Val (serialise_token jwt ds, JObj (flat_map (bmem H enc) m3), ds)).
-  { unfold issue. unfold C at 1. rewrite (has_reserved_top ckvs HC Hnalg). fold C.
+  { unfold issue. change (is_object C) with true. cbv iota. unfold issue_obj. unfold C at 1. rewrite (has_reserved_top ckvs HC Hnalg). fold C.
     assert (Hnc : (match cnf with Some _ => jhas_ "cnf" C | None => false end) = false).
     { destruct cnf; [|reflexivity]. unfold C, jhas_. rewrite (T2b.obj_get_none "cnf" ckvs Hncnf). reflexivity. }
     rewrite Hnc. rewrite Hf. cbn [of_res obind]. change (blind H enc t') with (JObj (flat_map (bmem H enc) mems')). cbv iota.
